@@ -735,7 +735,14 @@ def random_case(rng):
     exc = rng.sample([[4, "10.5.0.0", 16, 0, 0], [6, "fd00:5::", 32, 0, 0], [4, "127.0.0.1", 32, 0, 0], [4, "10.0.0.1", 32, 22, 22]],
                      rng.randint(0, 2))
     dns = rng.random() < 0.5
-    case = {"method": method, "remote": rng.random() < 0.97, "l6": rl(6), "l4": rl(4), "dns": dns,
+    l6c, l4c = rl(6), rl(4)
+    # an exclude that names a listen address but only for some ports (it does not exclude the listener itself)
+    for l, fam, loop in ((l4c, 4, "127.0.0.1"), (l6c, 6, "::1")):
+        ip = loop if l == "auto" else (l[0] if isinstance(l, list) else None)
+        if ip and rng.random() < 0.3:
+            lo = rng.choice([22, 80, 5000, 8080, 12300])
+            exc.append([fam, ip, 32 if fam == 4 else 128, lo, lo + rng.choice([0, 0, 10])])
+    case = {"method": method, "remote": rng.random() < 0.97, "l6": l6c, "l4": l4c, "dns": dns,
             "resolv": rng.sample(NS4 + NS6, rng.randint(0, 3)) if rng.random() < 0.8 else [],
             "ns_hosts": rng.sample(NS4 + NS6, rng.randint(0, 2)) if rng.random() < 0.5 else [],
             "to_ns": rng.choice([None, [4, "10.1.1.1", 53], [6, "fd00::1", 5353]]),
